@@ -56,6 +56,9 @@ struct Params {
     pick: u64,
     big: Option<usize>, // Append(4): size in bytes of the frame line INCLUDING its newline (exact when the thread has a message)
     esc: bool,          // big content full of characters the serializer escapes (written in many pieces)
+    // Auto / AutoSchedule: issue the call WITHOUT dry_run only when the harness's own planner (cut points
+    // recomputed from the truth log) finds nothing to do; otherwise issue it as a dry run
+    only_if_noop: bool,
 }
 
 #[derive(Clone, Debug)]
@@ -63,6 +66,244 @@ enum Call {
     Cap { cp: Cp, th: usize, p: Params },
     Fault { x: Fault, th: usize },
     Restart,
+    /// a fault on ONE cache file of the thread (the other cache files stay as they are)
+    CacheFault { file: CFile, kind: CKind, th: usize },
+    /// the store is closed, `timestamp_ms` of every frame in events.jsonl and in every cache file is
+    /// moved `ms` into the past (negative: into the future; same number of digits, so byte offsets in
+    /// the indexes stay valid) and the store is opened again: "the same store, that much later"
+    Age { ms: i64 },
+}
+
+// ---------- faults on one cache file ----------
+#[derive(Clone, Copy, Debug, PartialEq, Eq)]
+enum CFile {
+    Full,
+    Seek,
+    MsgIdx,
+    Mr,
+    MrSeek,
+    MrMsgIdx,
+    MrOrd,
+    Comp,
+    CompIdx,
+}
+const CFILES: [CFile; 9] = [CFile::Full, CFile::Seek, CFile::MsgIdx, CFile::Mr, CFile::MrSeek, CFile::MrMsgIdx, CFile::MrOrd, CFile::Comp, CFile::CompIdx];
+impl CFile {
+    fn suffix(&self) -> &'static str {
+        match self {
+            CFile::Full => "jsonl",
+            CFile::Seek => "seek.v1.jsonl",
+            CFile::MsgIdx => "messages.v1.bin",
+            CFile::Mr => "mr.v1.jsonl",
+            CFile::MrSeek => "mr.seek.v1.jsonl",
+            CFile::MrMsgIdx => "mr.messages.v1.bin",
+            CFile::MrOrd => "mr.msgord.v1.bin",
+            CFile::Comp => "comp.v1.jsonl",
+            CFile::CompIdx => "comp.idx.v1.jsonl",
+        }
+    }
+    fn binary(&self) -> bool {
+        self.suffix().ends_with(".bin")
+    }
+}
+#[derive(Clone, Copy, Debug, PartialEq, Eq)]
+enum CKind {
+    Deleted,
+    ZeroLength,
+    TornLastLine,
+    TrailingGarbage,
+    MidGarbage,
+}
+const CKINDS: [CKind; 5] = [CKind::Deleted, CKind::ZeroLength, CKind::TornLastLine, CKind::TrailingGarbage, CKind::MidGarbage];
+const GARBAGE_LINE: &[u8] = b"#\xfe\x00 garbage {not json\n";
+const GARBAGE_BIN: &[u8] = b"\xfe\x00GARB\xff"; // 7 bytes: no multiple of any record size
+
+fn cache_path(env: &Env, id: &str, file: CFile) -> std::path::PathBuf {
+    env.data_dir.join("continuity_streams").join(format!("{id}.{}", file.suffix()))
+}
+fn find_sub(h: &[u8], n: &[u8]) -> Option<usize> {
+    h.windows(n.len()).position(|w| w == n)
+}
+
+/// Applies the fault; idempotent (a file that already shows the fault is left alone, a file that was
+/// rebuilt in between is faulted again).  false: the file does not exist / is too small.
+fn apply_cache_fault(env: &Env, id: &str, file: CFile, kind: CKind) -> bool {
+    let p = cache_path(env, id, file);
+    let Ok(b) = std::fs::read(&p) else { return false };
+    let garbage = if file.binary() { GARBAGE_BIN } else { GARBAGE_LINE };
+    match kind {
+        CKind::Deleted => std::fs::remove_file(&p).is_ok(),
+        CKind::ZeroLength => std::fs::write(&p, b"").is_ok(),
+        CKind::TornLastLine => {
+            if file.binary() {
+                // cut inside the last record (a file whose length is odd was cut already)
+                if b.len() < 8 || b.len() % 2 == 1 {
+                    return b.len() % 2 == 1;
+                }
+                std::fs::write(&p, &b[..b.len() - 5]).is_ok()
+            } else {
+                if b.is_empty() {
+                    return false;
+                }
+                if b[b.len() - 1] != b'\n' {
+                    return true;
+                }
+                let start = b[..b.len() - 1].iter().rposition(|x| *x == b'\n').map(|i| i + 1).unwrap_or(0);
+                let keep = start + (b.len() - 1 - start) / 2;
+                std::fs::write(&p, &b[..keep.max(1)]).is_ok()
+            }
+        }
+        CKind::TrailingGarbage => {
+            if b.ends_with(garbage) {
+                return true;
+            }
+            let mut n = b.clone();
+            n.extend_from_slice(garbage);
+            std::fs::write(&p, n).is_ok()
+        }
+        CKind::MidGarbage => {
+            if find_sub(&b, garbage).is_some() {
+                return true;
+            }
+            let at = if file.binary() {
+                b.len() / 2
+            } else {
+                // at a line boundary: after the first half of the lines (every other line stays whole)
+                let nls: Vec<usize> = b.iter().enumerate().filter(|(_, x)| **x == b'\n').map(|(i, _)| i + 1).collect();
+                if nls.is_empty() {
+                    0
+                } else {
+                    nls[(nls.len() - 1) / 2]
+                }
+            };
+            let mut n = b[..at].to_vec();
+            n.extend_from_slice(garbage);
+            n.extend_from_slice(&b[at..]);
+            std::fs::write(&p, n).is_ok()
+        }
+    }
+}
+
+/// Rewrites every `"timestamp_ms":<digits>` of the file by `-ms` (same width).  None: a number would
+/// change its width (the file is left alone).
+fn shift_timestamps(bytes: &[u8], ms: i64) -> Option<(Vec<u8>, u64)> {
+    let key = b"\"timestamp_ms\":";
+    let mut out = bytes.to_vec();
+    let mut i = 0usize;
+    let mut n = 0u64;
+    while i + key.len() < out.len() {
+        if &out[i..i + key.len()] == key {
+            let s = i + key.len();
+            let mut e = s;
+            while e < out.len() && out[e].is_ascii_digit() {
+                e += 1;
+            }
+            if e > s {
+                let v: i128 = std::str::from_utf8(&out[s..e]).ok()?.parse().ok()?;
+                let w = v - ms as i128;
+                if w < 0 {
+                    return None;
+                }
+                let t = w.to_string();
+                if t.len() != e - s {
+                    return None;
+                }
+                out[s..e].copy_from_slice(t.as_bytes());
+                n += 1;
+            }
+            i = e;
+        } else {
+            i += 1;
+        }
+    }
+    Some((out, n))
+}
+
+/// Call::Age.  Returns (frames of events.jsonl re-stamped, files rewritten).
+fn age_store(env: &mut Env, ms: i64) -> (u64, u64) {
+    let mut files = vec![env.log_path()];
+    if let Ok(rd) = std::fs::read_dir(env.data_dir.join("continuity_streams")) {
+        for e in rd.flatten() {
+            if e.file_name().to_string_lossy().ends_with(".jsonl") {
+                files.push(e.path());
+            }
+        }
+    }
+    let mut plan = vec![];
+    for f in &files {
+        let Ok(b) = std::fs::read(f) else { continue };
+        match shift_timestamps(&b, ms) {
+            Some((nb, n)) => plan.push((f.clone(), nb, n)),
+            None => return (0, 0), // a width would change: nothing is touched
+        }
+    }
+    let mut stamped = 0;
+    let mut rewritten = 0;
+    for (f, nb, n) in plan {
+        if n > 0 && std::fs::write(&f, nb).is_ok() {
+            rewritten += 1;
+            if f == env.log_path() {
+                stamped = n;
+            }
+        }
+    }
+    env.restart();
+    (stamped, rewritten)
+}
+
+/// The harness's own planner: the cut points of `stride_messages_v1/<stride>` (every stride-th message,
+/// the newest 32 of them) that no checkpoint frame of the thread covers - computed from the frames
+/// of the TRUTH LOG alone.  0 = an auto / auto-schedule call has nothing to do.
+fn ref_unplanned(stream: &[&Hdr], stride: Option<u64>) -> u64 {
+    let stride = stride.unwrap_or(10_000);
+    if stride == 0 {
+        return 0;
+    }
+    let msgs: Vec<u64> = stream.iter().filter(|h| h.code == 4).map(|h| h.seq).collect();
+    let covered: std::collections::BTreeSet<u64> = stream
+        .iter()
+        .filter_map(|h| match &h.ev.kind {
+            rip_kernel::EventKind::ContinuityCompactionCheckpointCreated { to_seq, .. } => Some(*to_seq),
+            _ => None,
+        })
+        .collect();
+    let latest = (msgs.len() as u64 / stride) * stride;
+    let mut k = 0;
+    for i in 0..32u64 {
+        let Some(back) = i.checked_mul(stride) else { break };
+        if back >= latest {
+            break;
+        }
+        let ord = latest - back;
+        if !covered.contains(&msgs[(ord - 1) as usize]) {
+            k += 1;
+        }
+    }
+    k
+}
+
+/// State of the two derived sidecars of a thread, judged against the truth log (names a known open
+/// class when a no-op invocation appends because of it).
+fn derived_state(env: &Env, id: &str, stream: &[&Hdr]) -> Option<&'static str> {
+    for (file, codes) in [(CFile::Comp, vec![9u64]), (CFile::Mr, vec![4u64, 13])] {
+        let Ok(b) = std::fs::read(cache_path(env, id, file)) else { continue };
+        let want = stream.iter().filter(|h| codes.contains(&h.code)).count();
+        if b.is_empty() {
+            if want > 0 {
+                return Some("derived_sidecar_zero_length_accepted");
+            }
+            continue;
+        }
+        if let Ok(fs) = parse_log(&b) {
+            // well-formed; the projection has `want` frames with these seqs
+            let seqs: Vec<u64> = fs.iter().map(|h| h.seq).collect();
+            let truth: Vec<u64> = stream.iter().filter(|h| codes.contains(&h.code)).map(|h| h.seq).collect();
+            if seqs != truth {
+                return Some("derived_sidecar_wellformed_not_projection");
+            }
+        }
+    }
+    None
 }
 
 #[derive(Clone, Debug, Default)]
@@ -260,9 +501,10 @@ fn do_cap(env: &Env, hs: &[Hdr], cp: Cp, th: usize, p: &Params) -> Facts {
             f.resp_silent = matches!(&r, Ok(x) if !x.rotated);
         }
         Cp::Auto => {
+            let dry_run = if p.only_if_noop { Some(ref_unplanned(&stream, p.stride) > 0) } else { p.dry_run };
             f.stride0 = p.stride == Some(0);
-            f.dry = p.dry_run == Some(true);
-            match st.compaction_auto_v1(&id, CompactionAutoV1Request { stride_messages: p.stride, max_new_checkpoints: p.max_new, dry_run: p.dry_run, actor_id: a, origin: o }) {
+            f.dry = dry_run == Some(true);
+            match st.compaction_auto_v1(&id, CompactionAutoV1Request { stride_messages: p.stride, max_new_checkpoints: p.max_new, dry_run, actor_id: a, origin: o }) {
                 Err(_) => f.planned = 0,
                 Ok(r) => {
                     f.planned = r.planned.len() as u64;
@@ -274,11 +516,12 @@ fn do_cap(env: &Env, hs: &[Hdr], cp: Cp, th: usize, p: &Params) -> Facts {
             }
         }
         Cp::AutoSchedule => {
+            let dry_run = if p.only_if_noop { Some(ref_unplanned(&stream, p.stride) > 0) } else { p.dry_run };
             f.stride0 = p.stride == Some(0);
-            f.dry = p.dry_run == Some(true);
+            f.dry = dry_run == Some(true);
             match st.compaction_auto_schedule_v1(
                 &id,
-                CompactionAutoScheduleV1Request { stride_messages: p.stride, max_new_checkpoints: p.max_new, block_on_inflight: p.block, execute: p.execute, dry_run: p.dry_run, actor_id: a, origin: o },
+                CompactionAutoScheduleV1Request { stride_messages: p.stride, max_new_checkpoints: p.max_new, block_on_inflight: p.block, execute: p.execute, dry_run, actor_id: a, origin: o },
             ) {
                 Err(_) => f.planned = 0,
                 Ok(r) => {
@@ -435,8 +678,25 @@ fn apply_call(env: &mut Env, call: &Call, out: &mut Outcome, dist: &mut Option<&
     let tree_before = tree_snapshot(&env.root);
     let mut silent_req = false;
     let mut name = String::new();
+    // independent judgement of "nothing to do" for auto / auto-schedule: no cut point of the requested
+    // stride is left without a checkpoint IN THE TRUTH LOG (whatever the response says)
+    let mut noop_by_truth: Option<&'static str> = None;
+    let mut aged = false;
     match call {
         Call::Cap { cp, th, p } => {
+            if matches!(cp, Cp::Auto | Cp::AutoSchedule) {
+                let id = thread_id(&hs, *th, p.pick);
+                let stream: Vec<&Hdr> = hs.iter().filter(|h| h.kind == rip_kernel::StreamKind::Continuity && h.sid == id).collect();
+                if ref_unplanned(&stream, p.stride) == 0 {
+                    noop_by_truth = Some(derived_state(env, &id, &stream).unwrap_or(""));
+                    if let Some(d) = dist.as_deref_mut() {
+                        d.bump("auto_or_schedule_with_nothing_to_do_by_truth");
+                        if (p.only_if_noop || p.dry_run != Some(true)) && p.stride != Some(0) && *th < created_ids(&hs).len() {
+                            d.bump("auto_or_schedule_with_nothing_to_do_by_truth_not_dry_run_known_thread");
+                        }
+                    }
+                }
+            }
             let f = do_cap(env, &hs, *cp, *th, p);
             out.unmodelled |= f.unmodelled;
             silent_req = cp.read_only() || (matches!(cp, Cp::Auto | Cp::AutoSchedule) && (f.dry || f.stride0)) || f.resp_silent;
@@ -481,9 +741,50 @@ fn apply_call(env: &mut Env, call: &Call, out: &mut Outcome, dist: &mut Option<&
                 d.bump("restart");
             }
         }
+        Call::CacheFault { file, kind, th } => {
+            let ids = created_ids(&hs);
+            let done = ids.get(*th).map(|id| apply_cache_fault(env, id, *file, *kind)).unwrap_or(false);
+            // the model keeps the full sidecar only: a fault on a derived file has no counterpart there
+            let th_c = coq_nat((*th).min(99) as u64);
+            out.coq_calls.push(match (file, kind, done) {
+                (CFile::Full, CKind::Deleted, true) => format!("KFault XDelete {th_c}"),
+                (CFile::Full, CKind::ZeroLength, true) => format!("KFault XEmpty {th_c}"),
+                (CFile::Full, CKind::TornLastLine, true) => format!("KFault XTearTail {th_c}"),
+                (CFile::Full, CKind::TrailingGarbage, true) => format!("KSideGarbage false {th_c}"),
+                (CFile::Full, CKind::MidGarbage, true) => format!("KSideGarbage true {th_c}"),
+                _ => "KDerivedFault".to_string(),
+            });
+            if let Some(d) = dist.as_deref_mut() {
+                d.bump(&format!("cache_fault={}:{kind:?}{}", file.suffix(), if done { "" } else { ":no_such_file" }));
+            }
+        }
+        Call::Age { ms } => {
+            let frames_before = hs.len() as u64;
+            let (stamped, files) = age_store(env, *ms);
+            aged = true;
+            out.coq_calls.push("KAge".into());
+            if let Some(d) = dist.as_deref_mut() {
+                d.bump(&format!("aged_by_ms={ms}"));
+                d.bump_by("aged_files_rewritten", files);
+            }
+            if stamped != frames_before {
+                out.violations.push((format!("harness: ageing re-stamped {stamped} of {frames_before} frames"), "harness_age_failed".into()));
+            }
+        }
     }
     // ---- independent oracle
     let after = env.log_bytes();
+    if aged {
+        // the harness itself rewrote the timestamps: same length, same frames apart from the time
+        out.oracle_checks += 1;
+        let same = after.len() == before.len() && parse_log(&after).map(|h| h.len()).ok() == Some(hs.len());
+        if !same {
+            out.violations.push((format!("harness: ageing changed the shape of the log ({} -> {} bytes)", before.len(), after.len()), "harness_age_failed".into()));
+        }
+        let _ = mon_drain();
+        out.obs.push(parse_log(&after).map(|h| h.len() as u64).unwrap_or(0));
+        return;
+    }
     out.oracle_checks += 1;
     let (hv, hp) = mon_drain();
     out.hook_points += hp;
@@ -503,6 +804,12 @@ fn apply_call(env: &mut Env, call: &Call, out: &mut Outcome, dist: &mut Option<&
                 out.appended_by_silent += 1;
                 let n0 = name.split('[').next().unwrap().to_string();
                 out.violations.push((format!("{name}: a read-only / dry-run / no-op invocation appended {} frame(s) (first: {})", fs.len(), ETYPES[fs[0].code as usize]), format!("silent_invocation_appended_{n0}")));
+            } else if let (Some(derived), false) = (noop_by_truth, fs.is_empty()) {
+                out.appended_by_silent += 1;
+                let n0 = name.split('[').next().unwrap().to_string();
+                let kinds: Vec<&str> = fs.iter().map(|h| ETYPES[h.code as usize]).collect();
+                let class = if derived.is_empty() { format!("nothing_to_do_invocation_appended_{n0}") } else { format!("nothing_to_do_invocation_appended:{derived}") };
+                out.violations.push((format!("{name}: every cut point of the requested stride has a checkpoint in the truth log (nothing to do), yet the call appended {} frame(s): {}{}", fs.len(), kinds.join(", "), if derived.is_empty() { String::new() } else { format!(" [cache state: {derived}]") }), class));
             }
             if let Call::Cap { p, cp: Cp::Append(4), .. } = call {
                 if p.big.is_some() && !suffix.is_empty() {
@@ -558,6 +865,7 @@ fn gen_params(r: &mut Rng) -> Params {
         pick: r.below(1000),
         big: if r.chance(1, 12) { Some(*r.pick(&[8190usize, 8191, 8192, 8193, 8194, 16385, 30000])) } else { None },
         esc: r.chance(1, 2),
+        only_if_noop: false,
     }
 }
 
@@ -586,8 +894,8 @@ fn gen_case(r: &mut Rng, long: bool) -> Vec<Call> {
             }
             18 | 19 => Call::Cap { cp: Cp::Checkpoint, th, p },
             20 => Call::Cap { cp: Cp::CursorRotate, th, p },
-            21..=23 => Call::Cap { cp: Cp::Auto, th, p },
-            24..=26 => Call::Cap { cp: Cp::AutoSchedule, th, p },
+            21..=23 => Call::Cap { cp: Cp::Auto, th, p: Params { only_if_noop: r.chance(1, 4), ..p } },
+            24..=26 => Call::Cap { cp: Cp::AutoSchedule, th, p: Params { only_if_noop: r.chance(1, 4), ..p } },
             27 => Call::Cap { cp: Cp::CutPoints, th, p },
             28 => Call::Cap { cp: Cp::CompactionStatus, th, p },
             29 => Call::Cap { cp: Cp::CursorStatus, th, p },
@@ -596,6 +904,7 @@ fn gen_case(r: &mut Rng, long: bool) -> Vec<Call> {
             32 => Call::Cap { cp: *r.pick(&[Cp::List, Cp::Get, Cp::Subscribe]), th, p },
             33 => Call::Cap { cp: Cp::EnsureDefault, th: 0, p },
             34 | 35 => Call::Restart,
+            36 if r.chance(1, 2) => Call::Age { ms: *r.pick(&[16 * 60_000, HOUR, 30 * 24 * HOUR, -HOUR]) },
             _ => Call::Fault { x: *r.pick(&[Fault::Delete, Fault::TearTail, Fault::Empty, Fault::Delete]), th },
         };
         calls.push(c);
@@ -652,8 +961,8 @@ fn sweep_states() -> Vec<(&'static str, Vec<Call>)> {
         ("inflight_job_caches_deleted_restart", with(&inflight, vec![Call::Fault { x: Fault::Delete, th: 0 }, Call::Restart])),
         ("inflight_job_restart", with(&inflight, vec![Call::Restart])),
         ("backlog_larger_than_max_new", backlog),
-        ("all_cut_points_checkpointed", done),
-        ("job_ended_then_new_backlog", ended),
+        ("all_cut_points_checkpointed", done.clone()),
+        ("job_ended_then_new_backlog", ended.clone()),
         ("base_caches_deleted", with(&base, vec![Call::Fault { x: Fault::Delete, th: 0 }])),
         ("base_caches_deleted_restart", with(&base, vec![Call::Fault { x: Fault::Delete, th: 0 }, Call::Restart])),
         ("base_torn_sidecar_restart", with(&base, vec![Call::Fault { x: Fault::TearTail, th: 0 }, Call::Restart])),
@@ -662,8 +971,16 @@ fn sweep_states() -> Vec<(&'static str, Vec<Call>)> {
         ("base_fresh_restart", with(&base, vec![Call::Restart])),
         ("children_inflight_on_child", two),
         ("frames_over_8k_and_over_256k_per_thread", bigs),
+        // the same store "that much later": every time-dependent branch of a read-only path sees old frames
+        ("inflight_job_aged_1h", with(&inflight, vec![Call::Age { ms: HOUR }])),
+        ("inflight_job_aged_16min_caches_deleted", with(&inflight, vec![Call::Age { ms: 16 * 60_000 }, Call::Fault { x: Fault::Delete, th: 0 }])),
+        ("inflight_job_aged_400d", with(&inflight, vec![Call::Age { ms: 400 * 24 * HOUR }])),
+        ("inflight_job_clock_1h_behind", with(&inflight, vec![Call::Age { ms: -HOUR }])),
+        ("job_ended_then_new_backlog_aged_1d", with(&ended, vec![Call::Age { ms: 24 * HOUR }])),
+        ("all_cut_points_checkpointed_aged_1h", with(&done, vec![Call::Age { ms: HOUR }])),
     ]
 }
+const HOUR: i64 = 3_600_000;
 
 const STRIDES: [Option<u64>; 6] = [None, Some(0), Some(1), Some(2), Some(3), Some(u64::MAX)];
 const LIMITS: [Option<u32>; 6] = [None, Some(0), Some(1), Some(32), Some(33), Some(u32::MAX)];
@@ -698,6 +1015,26 @@ fn full_param_sweep(th: usize, pick: u64) -> Vec<Call> {
     }
     for limit in LIMITS {
         c.push(cap(Cp::SelectionStatus, th, Params { limit, ..base.clone() }));
+    }
+    c.extend(noop_probes(th, pick, &[None, Some(1), Some(2), Some(3), Some(u64::MAX)], true));
+    c
+}
+
+/// auto / auto-schedule WITHOUT dry_run where the truth log leaves nothing to do (decided per call by
+/// `ref_unplanned`; a call that has something to do is issued as a dry run instead)
+fn noop_probes(th: usize, pick: u64, strides: &[Option<u64>], all: bool) -> Vec<Call> {
+    let mut c = vec![];
+    let base = Params { pick, only_if_noop: true, ..Default::default() };
+    for stride in strides.iter().copied() {
+        let maxes: &[Option<u32>] = if all { &[None, Some(33)] } else { &[Some(33)] };
+        for max_new in maxes.iter().copied() {
+            c.push(cap(Cp::Auto, th, Params { stride, max_new, ..base.clone() }));
+            for (block, execute) in [(None, None), (Some(false), Some(true)), (Some(true), Some(false)), (Some(false), Some(false))] {
+                if all || block.is_none() || execute == Some(false) {
+                    c.push(cap(Cp::AutoSchedule, th, Params { stride, max_new, block, execute, ..base.clone() }));
+                }
+            }
+        }
     }
     c
 }
@@ -734,7 +1071,7 @@ fn sweep_cases() -> Vec<(String, Vec<Call>)> {
             // A state made by a cache fault (+ restart) lasts only until the first call that rebuilds the
             // caches: the fault is applied again before EVERY call of the sweep, so that each parameter
             // combination of each capability meets the faulted state itself.
-            let k = setup.iter().rposition(|c| matches!(c, Call::Cap { .. })).map(|i| i + 1).unwrap_or(0);
+            let k = setup.iter().rposition(|c| matches!(c, Call::Cap { .. } | Call::Age { .. })).map(|i| i + 1).unwrap_or(0);
             let refault: Vec<Call> = setup[k..].to_vec();
             let mut c = setup[..k].to_vec();
             for call in full_param_sweep(th, 0) {
@@ -765,6 +1102,71 @@ fn sweep_cases() -> Vec<(String, Vec<Call>)> {
         }
     }
     out.extend(product_cases());
+    out.extend(noop_fault_cases());
+    out
+}
+
+/// (a) a thread with NOTHING TO DO x one fault on one cache file x {as it is, restart} x the no-op
+/// invocations without dry_run (and the readers the planner is made of).  The caches are healed
+/// (all removed, rebuilt by reads) before each (file, fault) group; the fault is applied again before
+/// every call.
+fn noop_fault_cases() -> Vec<(String, Vec<Call>)> {
+    let ensure = || cap(Cp::EnsureDefault, 0, Params::default());
+    let mut a = vec![ensure()];
+    a.extend(msgs(0, 6));
+    a.push(cap(Cp::Auto, 0, Params { stride: Some(2), max_new: Some(33), ..Default::default() }));
+    // the setting of seed C02-6: 7 messages, schedule with stride 3 -> checkpoints at messages 3 and 6
+    let mut b = vec![ensure()];
+    b.extend(msgs(0, 7));
+    b.push(cap(Cp::AutoSchedule, 0, Params { stride: Some(3), max_new: Some(32), execute: Some(true), ..Default::default() }));
+    b.push(cap(Cp::Append(8), 0, Params::default()));
+    // nothing to do AND an announced job that never ran (the scheduler's in-flight branch)
+    let mut c3 = vec![ensure()];
+    c3.extend(msgs(0, 4));
+    c3.push(cap(Cp::AutoSchedule, 0, Params { stride: Some(2), max_new: Some(1), execute: Some(false), ..Default::default() }));
+    c3.push(cap(Cp::Auto, 0, Params { stride: Some(2), max_new: Some(33), ..Default::default() }));
+    let mut out = vec![];
+    for (cname, setup, stride) in [("auto_stride2_6msgs", a, 2u64), ("schedule_stride3_7msgs_cursor", b, 3), ("unrun_job_then_auto_stride2_4msgs", c3, 2)] {
+        for file in CFILES {
+            let mut c = setup.clone();
+            for kind in CKINDS {
+                for restart in [false, true] {
+                    // heal: every cache of the thread removed, then rebuilt from the truth log by reads
+                    c.push(Call::Fault { x: Fault::Delete, th: 0 });
+                    c.push(cap(Cp::Replay, 0, Params::default()));
+                    c.push(cap(Cp::CutPoints, 0, Params { stride: Some(stride), limit: Some(33), ..Default::default() }));
+                    c.push(cap(Cp::CompactionStatus, 0, Params { stride: Some(stride), ..Default::default() }));
+                    c.push(cap(Cp::SelectionStatus, 0, Params::default()));
+                    let mut probes = noop_probes(0, 0, &[Some(stride)], false);
+                    probes.push(cap(Cp::CutPoints, 0, Params { stride: Some(stride), limit: Some(33), ..Default::default() }));
+                    probes.push(cap(Cp::CompactionStatus, 0, Params { stride: Some(stride), ..Default::default() }));
+                    probes.extend(noop_probes(0, 0, &[Some(stride)], false));
+                    for call in probes {
+                        c.push(Call::CacheFault { file, kind, th: 0 });
+                        if restart {
+                            c.push(Call::Restart);
+                        }
+                        c.push(call);
+                    }
+                }
+            }
+            c.push(cap(Cp::Append(4), 0, Params::default()));
+            out.push((format!("noop_x_cache_fault/{cname}/{}", file.suffix()), c));
+        }
+    }
+    // the known S4 state (C04): the comp sidecar is lost and re-created by the next checkpoint append, so
+    // it is well-formed but holds only the newest checkpoint; then the no-op invocations
+    let mut s4 = vec![ensure()];
+    for _ in 0..3 {
+        s4.extend(msgs(0, 2));
+        if s4.len() > 6 {
+            s4.push(Call::CacheFault { file: CFile::Comp, kind: CKind::Deleted, th: 0 });
+            s4.push(Call::CacheFault { file: CFile::CompIdx, kind: CKind::Deleted, th: 0 });
+        }
+        s4.push(cap(Cp::Checkpoint, 0, Params { stride: Some(2), ..Default::default() }));
+    }
+    s4.extend(noop_probes(0, 0, &[Some(2)], false));
+    out.push(("noop_x_cache_fault/known_S4_comp_sidecar_recreated_by_append".to_string(), s4));
     out
 }
 
@@ -1396,11 +1798,17 @@ fn main() {
                 for l in &o.big_lines {
                     res.bump(&format!("frame_line_bytes={}", if *l > 50_000 { "100000".to_string() } else { l.to_string() }));
                 }
+                // the first violation of every class the case shows (a known class must not hide another one)
+                let mut seen_classes: Vec<String> = vec![];
                 for (what, class) in &o.violations {
                     let cls = class.clone();
+                    if seen_classes.contains(&cls) {
+                        continue;
+                    }
+                    seen_classes.push(cls.clone());
                     if res.oracle_violations.iter().filter(|v| v.class == cls).count() >= 4 {
                         res.bump(&format!("violations_of_class={cls}"));
-                        break;
+                        continue;
                     }
                     // shrinking re-runs the history: skip it for the long sweeps once a few are reported
                     let shrunk = if res.oracle_violations.len() < 6 {
@@ -1411,12 +1819,12 @@ fn main() {
                         calls.clone()
                     };
                     push_violation(&mut res, i as i64, format!("{label}: {what}"), class, json!(shrunk.iter().map(call_json).collect::<Vec<_>>()));
-                    break;
                 }
                 if o.unmodelled {
                     res.bump("cases_with_failed_job_not_compared");
                 } else if !a.oracle_only() {
-                    let term = format!("CStore {{| c2_calls := [{}]; c2_expect := {} |}}", o.coq_calls.join("; "), coq_list_n(&o.obs));
+                    let wrapped: Vec<String> = o.coq_calls.iter().map(|c| if c.starts_with("KCap") || c.starts_with("KFault") || c.starts_with("KRestart") { format!("K ({c})") } else { c.clone() }).collect();
+                    let term = format!("CStore2 {{| c2b_calls := [{}]; c2b_expect := {} |}}", wrapped.join("; "), coq_list_n(&o.obs));
                     let id = w.push(term);
                     if res.case_index.len() < 3000 {
                         let shown: Vec<_> = if calls.len() > 60 { vec![json!(format!("{label} ({} calls; see sweep_cases in harness/src/bin/c02.rs)", calls.len()))] } else { calls.iter().map(call_json).collect() };
